@@ -42,7 +42,7 @@ KIND_FILES = {
     "CDIMAGE": ("Disc.png", "x-cd.png", "x-cd2.png"),
     "MUSIC": ("Audio.bin", "song.OGG", "song.mp3x"),
 }
-STATES = ["absent", "emptysimfile", "empty", "exact", "othercase", "missing", "sub-othercase", "SUB-wrongcase", "nosuch", "spaced"]
+STATES = ["absent", "emptysimfile", "empty", "exact", "othercase", "missing", "sub-othercase", "SUB-wrongcase", "nosuch", "spaced", "dotted", "updown"]
 SPACED_PREFIX, SPACED_SUFFIX = " ", "　"  # a file whose real name begins with a blank and ends with U+3000
 
 
@@ -101,13 +101,32 @@ def model_tree(tree):
     return {k: ({kk: None for kk in v} if isinstance(v, dict) else None) for k, v in tree.items()}
 
 
-def check_assets(world, tree, props, order, paths, given=True, empty_simfile=False, kinds=MA.KINDS):
+def respell(fsname, base, how):
+    """The same directory written another way (the answers are normalized paths all the same)."""
+    if how == "plain":
+        return base
+    head, tail = (fs.path.split(base) if fsname == "mem" else os.path.split(base))
+    sep = "/" if fsname == "mem" else os.sep
+    if how == "dot":
+        return head + sep + "." + sep + tail
+    if how == "updown":
+        return base + sep + ".." + sep + tail
+    if how == "doubled":
+        return head + sep + sep + tail
+    raise core.MachineryError(how)
+
+
+DIRSPELLS = ("plain", "dot", "updown", "doubled")
+
+
+def check_assets(world, tree, props, order, paths, given=True, empty_simfile=False, kinds=MA.KINDS, dirspell="plain"):
     """tree: directory content (name -> bytes | dict). props: simfile properties (dict)."""
     fails = []
     mt = model_tree(tree)
-    for fsname, fsobj, base in (("mem", world.mem, paths[0]), ("nat", world.nat, paths[1])):
+    for fsname, fsobj, real_base in (("mem", world.mem, paths[0]), ("nat", world.nat, paths[1])):
         fsobj.order = order
         tag = {"fs": fsname}
+        base = respell(fsname, real_base, dirspell)
         if given:
             sf = SMSimfile(string="")
             if not empty_simfile:
@@ -137,7 +156,7 @@ def check_assets(world, tree, props, order, paths, given=True, empty_simfile=Fal
                 loaders.append(("Assets(strict=False)", r3[1]))
         for lname, a in loaders:
           for kind in kinds:
-              want = {norm(fsname, join(fsname, base, *parts)) for parts in MA.acceptable(kind, props.get(PROP_OF[kind]), mt)}
+              want = {norm(fsname, join(fsname, real_base, *parts)) for parts in MA.acceptable(kind, props.get(PROP_OF[kind]), mt)}
               r1 = core.outcome_of(lambda: getattr(a, ATTR_OF[kind]))
               if r1[0] != "ok":
                   fails.append({"clause": "asset lookup raised", "expected": sorted(want) or None, "observed": r1, "kind": kind, **tag})
@@ -174,6 +193,10 @@ def prop_value(kind, state):
         return "nosuch/" + named
     if state == "spaced":
         return SPACED_PREFIX + named + SPACED_SUFFIX
+    if state == "dotted":
+        return "./" + named
+    if state == "updown":
+        return "sub/../" + named.swapcase()  # only used when the directory 'sub' exists
     raise core.MachineryError(state)
 
 
@@ -198,6 +221,22 @@ def check_pack_banner(world, inside, beside, order, slash):
                 fails.append({"clause": "pack banner is not the best-priority image in the pack / the image beside it carrying its name / None", "expected": sorted(want) or None, "observed": got, "fs": fsname})
             elif got is not None and not exists(fsname, fsobj, got):
                 fails.append({"clause": "pack banner path does not exist", "expected": "existing path", "observed": got, "fs": fsname})
+            # the same pack named relative to the current directory (native only): bare name, './name', with a slash
+            if fsname == "nat" and order == 0:
+                cwd = os.getcwd()
+                try:
+                    os.chdir(join("nat", base, "Songs"))
+                    for rel in ("MyPack", "./MyPack", "MyPack/", "../Songs/MyPack"):
+                        rr = core.outcome_of(lambda: SimfilePack(rel, filesystem=fsobj).banner())
+                        if rr[0] != "ok":
+                            fails.append({"clause": "pack banner lookup raised for a pack named relative to the current directory", "expected": sorted(want) or None, "observed": rr, "pack": rel})
+                            continue
+                        g = rr[1]
+                        ga = None if g is None else os.path.normpath(os.path.abspath(g))
+                        if (ga is None and not none_ok) or (ga is not None and ga not in want):
+                            fails.append({"clause": "pack banner differs when the pack is named relative to the current directory", "expected": sorted(want) or None, "observed": g, "pack": rel})
+                finally:
+                    os.chdir(cwd)
     finally:
         world.drop(*paths)
     return fails
@@ -215,7 +254,7 @@ def check_case(case):
         if case["kind"] == "property":
             tree, props = property_tree(case["asset"], case["state"], case["extra"])
             paths = world.make(tree)
-            return check_assets(world, tree, props, case["order"], paths, given=True, empty_simfile=(case["state"] == "emptysimfile"), kinds=(case["asset"],))
+            return check_assets(world, tree, props, case["order"], paths, given=True, empty_simfile=(case["state"] == "emptysimfile"), kinds=(case["asset"],), dirspell=case.get("dirspell", "plain"))
         if case["kind"] == "packbanner":
             return check_pack_banner(world, case["inside"], case["beside"], case["order"], case["slash"])
     finally:
@@ -283,25 +322,30 @@ def explore_shard(acc, shard):
             if case:
                 acc.sample(layer, case)
         elif kind == "property":
-            _, asset = shard
+            _, asset, states = shard
             layer = "specified property states"
             case = None
-            for state in STATES:
+            for state in states:
                 for r in range(0, 4):
                     for extra in itertools.combinations(EXTRAS, r):
                         if "sub-named" in extra and "sub-empty" in extra:
                             continue
+                        if state == "updown" and not ("sub-named" in extra or "sub-empty" in extra):
+                            continue  # 'sub/..' is only unambiguous when 'sub' exists
                         tree, props = property_tree(asset, state, extra)
                         paths = world.make(tree)
                         acc.count("states")
                         acc.count("nontrivial")
                         nent = len(tree)
                         for order in range(fsseam.orders_for(nent)):
-                            case = {"kind": "property", "asset": asset, "state": state, "extra": list(extra), "order": order}
+                          for dirspell in (DIRSPELLS if order == 0 and state in ("absent", "exact", "sub-othercase", "dotted") else ("plain",)):
+                            case = {"kind": "property", "asset": asset, "state": state, "extra": list(extra), "order": order, "dirspell": dirspell}
                             core.guard_cheap(acc, case)
-                            fails = check_assets(world, tree, props, order, paths, given=True, empty_simfile=(state == "emptysimfile"), kinds=(asset,))
+                            fails = check_assets(world, tree, props, order, paths, given=True, empty_simfile=(state == "emptysimfile"), kinds=(asset,), dirspell=dirspell)
                             acc.count("transitions")
                             acc.count("evaluations", 2)
+                            if dirspell != "plain" or state in ("dotted", "updown"):
+                                acc.outcome("directory or property spelled in a way normalization changes")
                             if state in ("othercase", "sub-othercase") and ("named" in extra or "sub-named" in extra):
                                 acc.outcome("specified file found in another letter case")
                             if state in ("missing", "nosuch", "SUB-wrongcase"):
@@ -359,7 +403,8 @@ def explore(run):
     for i in range(len(NAMES)):
         shards.append(("content", i, maxn))
     for asset in MA.KINDS:
-        shards.append(("property", asset))
+        for i in range(0, len(STATES), 2):
+            shards.append(("property", asset, tuple(STATES[i:i + 2])))
     shards.append(("packbanner", None))
     for img in ["a.png", "B.JPG", "c.jpeg", "d.GIF", "e.bmp", "f.txt", "z.PNG", "cover_png", "x.jpgx"]:
         shards.append(("packbanner", img))
